@@ -12,7 +12,23 @@ namespace Sv
 inductive Tree where
   | leaf (off len line : Nat)
   | node (kind : Nat) (kids : List Tree)
-deriving Repr, Inhabited, BEq
+deriving Repr, Inhabited
+
+mutual
+/-- structural equality (`PartialEq` of `RefNode` compares node kind and contents; a `Locate` compares offset, line and length).
+    Written out — the derived instance of a nested inductive is opaque to the logic — so that membership in the preprocessor's skip list
+    can be reasoned about (`Lemmas/Tree.lean: Tree.beq_iff_eq`). -/
+def Tree.beq : Tree → Tree → Bool
+  | .leaf a b c, .leaf a' b' c' => a == a' && b == b' && c == c'
+  | .node k ks, .node k' ks' => k == k' && Tree.beqL ks ks'
+  | _, _ => false
+def Tree.beqL : List Tree → List Tree → Bool
+  | [], [] => true
+  | t :: ts, t' :: ts' => Tree.beq t t' && Tree.beqL ts ts'
+  | _, _ => false
+end
+
+instance : BEq Tree := ⟨Tree.beq⟩
 
 /-- `Node::next` -/
 def Tree.kids : Tree → List Tree
